@@ -304,9 +304,20 @@ def lease_gate(cx):
     ld = [l for l in lits if l[0] in ("notin", "in") and is_f(l[1], "RaftCore.leader_id") and 0 not in l[2]] + [("notin", x[1], frozenset([0]), None) for x in lits if x[0] == "in" and is_f(x[1], "RaftCore.leader_id") and x[2] == frozenset([0])]
     notforce = [l for l in lits if l[0] == "is" and l[2] is False and l[1][0] == "bin" and l[1][1] == "Eq" and any(is_item(x, "CAMPAIGN_TRANSFER") for x in l[1][2:4])]
     higher = [l for l in lits if l[0] == "is" and l[2] is True and l[1][0] == "bin" and l[1][1] == "Lt" and is_f(l[1][2], TERM) and l[1][3] == ("field", m, "Message.term")]
-    cx.check(bool(in_lease and cq and notforce and higher), "lease-atoms", "the lease test reads check_quorum, leader_id, election_elapsed < election_timeout and the transfer context")
-    if in_lease and cq and notforce and higher:
-        assume = [("in", mt, frozenset(["MsgRequestVote"]), MT), in_lease[0], cq[0], notforce[0], higher[0], ("notin", ("field", m, "Message.term"), frozenset([0]), None)] + ld[:1]
+    lease_assume = None
+    if in_lease and cq:
+        lease_assume = [in_lease[0], cq[0]] + ld[:1]
+    else:
+        # the three atoms may live in a small predicate function: use its call literal
+        from ..engine import expand_call_literal
+        for l in lits:
+            if l[0] == "is" and l[2] is True and l[1][0] == "call":
+                alts = expand_call_literal(cx, l)
+                if alts and any(any(x[0] == "is" and x[1][0] == "bin" and x[1][1] == "Lt" and is_f(x[1][2], "RaftCore.election_elapsed") for x in alt) and any(x[0] == "is" and is_f(x[1], "RaftCore.check_quorum") for x in alt) for alt in alts):
+                    lease_assume = [l]
+    cx.check(bool(lease_assume and notforce and higher), "lease-atoms", "the lease test reads check_quorum, leader_id, election_elapsed < election_timeout and the transfer context")
+    if lease_assume and notforce and higher:
+        assume = [("in", mt, frozenset(["MsgRequestVote"]), MT), notforce[0], higher[0], ("notin", ("field", m, "Message.term"), frozenset([0]), None)] + lease_assume
         hits = reach_writes(cx, step, assume, {TERM, VOTE, STATE, "RaftCore.leader_id", "RaftCore.election_elapsed"})
         cx.check(not hits, "lease-closed-no-effect", "inside the lease a higher-term vote request changes neither term, vote, role, leader nor the election timer (found %s)" % sorted({fk for _, _, fk in hits}))
 
@@ -330,7 +341,7 @@ def checkquorum(cx):
     for c in arms:
         key = cx.site_key(c, "checkquorum:stepdown")
         def inactive(l):
-            return l[0] == "is" and l[2] is False and l[1][0] == "call" and (l[1][1].endswith("check_quorum_active") or l[1][1].endswith("quorum_recently_active"))
+            return l[0] == "is" and l[2] is False and l[1][0] == "call" and (l[1][1] == cx.sfx("Raft::check_quorum_active") or l[1][1].endswith("quorum_recently_active"))
         require(cx, c, key, "the leader steps down in the MsgCheckQuorum arm only if the quorum was not recently active", inactive, kill=False)
         args = call_args(cx, c)
         cx.check(any(is_f(a, TERM) for a in args[1:]), key + ":term", "the step-down keeps the current term", c)
